@@ -18,7 +18,12 @@ func newOr(astNode schema.ASTNode) *Or {
 	rule := astNode.Rules.GetValue("or")
 
 	var ex *Example = nil
-	if astNode.TokenType != schema.TokenTypeShortcut {
+	switch astNode.TokenType {
+	case schema.TokenTypeShortcut, schema.TokenTypeObject, schema.TokenTypeArray:
+		// no scalar example to show
+	case schema.TokenTypeNull:
+		ex = newExample(astNode.Value, false)
+	default:
 		t := oadTypeFromASTNode(astNode)
 		ex = newExample(astNode.Value, t == OADTypeString)
 	}
@@ -46,7 +51,8 @@ func newAnyOf(rr []schema.RuleASTNode, annotated schema.ASTNode) []Node {
 				// An alternative has no example of its own: its constant is the
 				// annotated value (a reference has none to give).
 				p.Enum = nil
-				if annotated.TokenType != schema.TokenTypeShortcut {
+				switch annotated.TokenType {
+				case schema.TokenTypeNumber, schema.TokenTypeString, schema.TokenTypeBoolean, schema.TokenTypeNull:
 					p.Enum = makeEmptyEnum()
 					p.Enum.append(newExample(annotated.Value, internal.IsString(annotated)).jsonValue())
 				}
